@@ -211,7 +211,8 @@ LemFaults ==
   /\ fault.cls \in SyntaxClasses => m.kind = "syntax" /\ m.loc.f = fault.f /\ m.loc.p = fault.p
   /\ fault.cls \in RuleClasses   => m.kind \in {"validation", "ok"}     \* "ok": the key sits in an ignored section
   /\ fault.cls = "TooBig"        => m.kind = "reject"
-  /\ fault.cls = ""              => m.kind \in {"ok"}
+  /\ fault.cls = ""              => m.kind \in {"ok"} /\ ~m.lenient
+  /\ fault.cls \in {"TripleQuote", "QuoteInPattern"} => m.kind # "ok" \/ m.lenient
 LemmaInv == LemPermute /\ LemSplit /\ LemUnknown /\ LemDefaults /\ LemFaults
 
 \* the arithmetic of the lexical layer, against literal values
